@@ -1,6 +1,8 @@
 import NxModel.Prudp.Channel
 import NxModel.Crypto.Md5
 import NxModel.DriverUtil
+import NxModel.Prudp.Payload
+import NxModel.Crypto.Inflate
 /-! driver for the L2 channel model (one instance per direction and substream)
 
   new <ch> <start> <size> none                 create a channel without cipher (lite / stream transports)
@@ -9,6 +11,9 @@ import NxModel.DriverUtil
   begin <ch> <hex>                             `send` up to its fragment loop; answer: `pending=<n>` (fragments still to be emitted)
   frag <ch>                                    one turn of the fragment loop; answer: the wire appended (empty if nothing is pending)
   arrive <ch> <j>                              receiver op; answer: `ok=<opOk> nrel=<n> out=<count>`
+  zon <ch>                                     the channel compresses (prudp.compression = zlib): payloads are framed `ratio ++ deflate`
+  z <ch> <fragment hex> <z hex>                deflate oracle for one fragment (= zlib.compress(fragment)); answer `ok` iff the model's own
+                                               inflater turns z back into the fragment (the oracle is validated, not trusted), else `bad`
   state <ch>                                   `next=<id> buf=<ids> frag=<hex> closed=<0|1> decpos=<n> nrel=<n> sent=<count> out=<hex,..>`
 -/
 open Nx Nx.Chan
@@ -18,12 +23,30 @@ structure Inst where
   ch : Chan
   size : Nat
   ks : Array UInt8      -- empty = no cipher
+  zlib : Bool := false
+  zmap : List (Bytes × Bytes) := []     -- validated deflate oracle: fragment ↦ zlib.compress(fragment)
 
 def ksCipher (ks : Array UInt8) : Cipher :=
   if ks.size = 0 then ⟨fun _ x => x, fun _ x => x⟩
   else
     let f : Nat → Bytes → Bytes := fun p x => (List.range x.length).zipWith (fun i b => b ^^^ ks[p + i]!) x
     ⟨f, f⟩
+
+/-- with compression: encode = stream cipher after `ZlibCompression.compress` (deflate output looked up in the validated oracle),
+    decode = `ZlibCompression.decompress` (the model's own inflater) after the stream cipher -/
+def instCipher (i : Inst) : Cipher :=
+  let c := ksCipher i.ks
+  if !i.zlib then c else
+  { enc := fun p x =>
+      let z := ((i.zmap.find? (fun e => e.1 == x)).map (·.2)).getD []
+      match Nx.Prudp.compressFrame x z with
+      | .ok f => c.enc p f
+      | .error _ => [],
+    dec := fun p y =>
+      let f := c.dec p y
+      match Nx.Prudp.decompressFrame f (Nx.Crypto.zlibDecompress (f.drop 1)) with
+      | .ok d => d
+      | .error _ => [] }
 
 def keystream (key : Bytes) (n : Nat) : Array UInt8 :=
   let rec go (fuel : Nat) (st : Nx.Crypto.Rc4) (acc : Array UInt8) : Array UInt8 :=
@@ -51,17 +74,17 @@ def step (st : List Inst) (line : String) : List Inst × String :=
   match words line with
   | ["new", name, start, size, "none"] =>
     match start.toNat?, size.toNat? with
-    | some start, some size => (setInst ⟨name, init start, size, #[]⟩ st, "ok")
+    | some start, some size => (setInst { name := name, ch := init start, size := size, ks := #[] } st, "ok")
     | _, _ => (st, "bad-op")
   | ["new", name, start, size, "rc4", key, n] =>
     match start.toNat?, size.toNat?, fromHex key, n.toNat? with
-    | some start, some size, some key, some n => (setInst ⟨name, init start, size, keystream key n⟩ st, "ok")
+    | some start, some size, some key, some n => (setInst { name := name, ch := init start, size := size, ks := keystream key n } st, "ok")
     | _, _, _, _ => (st, "bad-op")
   | [op, name] =>
     match findInst name st with
     | none => (st, "bad-op")
     | some i =>
-      let c := ksCipher i.ks
+      let c := instCipher i
       match op with
       | "ping" =>
         let ch' := Chan.step c i.size i.ch .ping
@@ -69,6 +92,7 @@ def step (st : List Inst) (line : String) : List Inst × String :=
       | "frag" =>
         let ch' := Chan.step c i.size i.ch .frag
         (setInst { i with ch := ch' } st, " ".intercalate ((ch'.s.log.drop i.ch.s.log.length).map showWire))
+      | "zon" => (setInst { i with zlib := true } st, "ok")
       | "disc" =>
         let ch' := Chan.step c i.size i.ch .disconnect
         (setInst { i with ch := ch' } st, " ".intercalate ((ch'.s.log.drop i.ch.s.log.length).map showWire))
@@ -80,21 +104,26 @@ def step (st : List Inst) (line : String) : List Inst × String :=
   | ["send", name, msg] =>
     match findInst name st, fromHex msg with
     | some i, some m =>
-      let c := ksCipher i.ks
+      let c := instCipher i
       let ch' := Chan.step c i.size i.ch (.send m)
       (setInst { i with ch := ch' } st, " ".intercalate ((ch'.s.log.drop i.ch.s.log.length).map showWire))
     | _, _ => (st, "bad-op")
+  | ["z", name, frag, z] =>
+    match findInst name st, fromHex frag, fromHex z with
+    | some i, some f, some z =>
+      if Nx.Crypto.zlibDecompress z == some f then (setInst { i with zmap := (f, z) :: i.zmap } st, "ok") else (st, "bad")
+    | _, _, _ => (st, "bad-op")
   | ["begin", name, msg] =>
     match findInst name st, fromHex msg with
     | some i, some m =>
-      let c := ksCipher i.ks
+      let c := instCipher i
       let ch' := Chan.step c i.size i.ch (.begin m)
       (setInst { i with ch := ch' } st, s!"pending={ch'.s.pending.length}")
     | _, _ => (st, "bad-op")
   | ["arrive", name, j] =>
     match findInst name st, j.toNat? with
     | some i, some j =>
-      let c := ksCipher i.ks
+      let c := instCipher i
       let ok := opOk i.ch (.arrive j)
       let ch' := Chan.step c i.size i.ch (.arrive j)
       (setInst { i with ch := ch' } st, s!"ok={if ok then 1 else 0} nrel={ch'.r.nrel} out={ch'.r.core.reasm.out.length}")
